@@ -57,8 +57,48 @@ class Built:
         self.seed_rng = seed_rng
 
 
+class _KwProxy:
+    """unit_scaling.functional with every call turned into an ALL-KEYWORD call (input=..., weight=..., ...): the same
+    function must result however the arguments are passed."""
+
+    def __init__(self, mod: Any):
+        self._mod = mod
+
+    def __getattr__(self, name: str) -> Any:
+        import inspect
+
+        f = getattr(self._mod, name)
+        if not callable(f):
+            return f
+        sig = inspect.signature(f)
+
+        def call(*args: Any, **kw: Any) -> Any:
+            ba = sig.bind(*args, **kw)
+            named = {}
+            for k, v in ba.arguments.items():
+                if sig.parameters[k].kind is inspect.Parameter.VAR_KEYWORD:
+                    named.update(v)
+                elif sig.parameters[k].kind is inspect.Parameter.VAR_POSITIONAL:
+                    return f(*args, **kw)     # cannot be expressed by keywords
+                else:
+                    named[k] = v
+            return f(**named)
+
+        return call
+
+
+def _strided(v: torch.Tensor) -> torch.Tensor:
+    """A NON-CONTIGUOUS view with the same values (stride 2 along the last axis)."""
+    if not v.is_floating_point() or v.ndim == 0 or v.numel() == 0:
+        return v
+    return v.repeat_interleave(2, dim=-1)[..., ::2]
+
+
 def build(cfg: Dict[str, Any], draw: int) -> Built:
     import unit_scaling.functional as U
+
+    if cfg.get("call_style") == "kw":
+        U = _KwProxy(U)
 
     op = cfg["op"]
     g = _gen(cfg, draw)
@@ -237,8 +277,9 @@ def probe(cfg: Dict[str, Any], draw: int, up_draw: int = 0, backward: bool = Tru
     execution mode (eager / torch.compile / fx) of the unit-scaled call."""
     b = build(cfg, draw)
     rg = not cfg.get("frozen", False)
-    ins_u = OrderedDict((k, (v.clone().requires_grad_(True) if (rg and k in b.diff and v.is_floating_point()) else v.clone())) for k, v in b.inputs.items())
-    ins_r = OrderedDict((k, (v.clone().requires_grad_(True) if (rg and k in b.diff and v.is_floating_point()) else v.clone())) for k, v in b.inputs.items())
+    lay = _strided if cfg.get("layout") == "strided" else (lambda t: t)
+    ins_u = OrderedDict((k, (lay(v.clone()).requires_grad_(True) if (rg and k in b.diff and v.is_floating_point()) else lay(v.clone()))) for k, v in b.inputs.items())
+    ins_r = OrderedDict((k, (lay(v.clone()).requires_grad_(True) if (rg and k in b.diff and v.is_floating_point()) else lay(v.clone()))) for k, v in b.inputs.items())
     before = {k: (v.detach().clone(), v._version) for k, v in ins_u.items()}
     obs: Dict[str, Any] = {"err": None}
     seed = 12345 + draw
@@ -417,6 +458,13 @@ def configs(rng: random.Random, size: str) -> List[Dict[str, Any]]:
     for red in ("mean", "sum"):
         for sh in ([3], [2, 3], [1], [2, 1, 4], []):
             C.append({"op": "mse_loss", "shape": sh, "reduction": red})
+    # the same call with non-contiguous inputs / with every argument passed by keyword
+    var = []
+    for c in rng.sample(C, len(C) // 8):
+        var.append(dict(c, layout="strided"))
+    for c in rng.sample(C, len(C) // 8):
+        var.append(dict(c, call_style="kw"))
+    C += var
     # siblings: the SAME hyper-parameters with one size changed -- a value memoised per (hyper-parameters) instead of per
     # (hyper-parameters, shape) then shows up as a factor that depends on the call history (fnlog.other_history_events)
     SIZE = {"softmax": ("n", lambda v: 2 * v + 1), "scaled_dot_product_attention": ("seq", lambda v: v + 3), "cross_entropy": ("vocab", lambda v: v + 4),
